@@ -24,10 +24,10 @@ from ..core import Collector, Skip, Violation, attempt, exc_class, hyp_search
 PROPERTY = "C18"
 LEVEL = "exploration"
 RULE = ("roundtrip: Hypothesis quantities/units/measurements/unit containers/parser helpers over the whole registry (prefixed units the receiving registry has never "
-        "parsed included), magnitudes int/float/Fraction/Decimal/ndarray x pickle protocols 0-5, copy, deepcopy, to_tuple/from_tuple; unpickling happens under a "
+        "parsed included), magnitudes int/float/Fraction/Decimal/ndarray, registries with non_int_type float/Fraction/Decimal and fractional exponents x pickle protocols 0-5, copy, deepcopy, to_tuple/from_tuple; unpickling happens under a "
         "sequence of freshly installed application registries, and the unpickled object must be usable there (format '~', conversion); errors: every exception "
         "class of pint.errors with random arguments incl. falsy non-None ones; cross: every binary operator and ordering between objects of two registries "
-        "must raise ValueError; deepcopy: edits on one side of a deep-copied pair never change the other side, and objects reached through the copy belong to it; "
+        "must raise ValueError (core of the space enumerated: operators x operand kinds incl. attribute-obtained units x fresh/copy/copy-of-copy x side); deepcopy: edits on one side of a deep-copied pair never change the other side, and objects reached through the copy belong to it; "
         "lazy: the lazily built default registry answers like an explicitly built one. Non-trivial = an object mentioning a prefixed or lazily registered unit, "
         "a non-float magnitude, or protocol <= 1; distinct = distinct (object, transport)")
 ASSUMPTIONS = ["unpickled objects belong to the application registry by design, so round-trip equality is judged on (magnitude, unit items, class family), not with =="]
